@@ -106,6 +106,18 @@ static int make_trace(pid_t pid, int sig, char *buf, int cap) {
                 rip >= text.lo && rip < text.hi);
   int nf = 0;
   uint64_t fp = 0;
+  if (overflow) {
+    // Stack exhausted (unbounded recursion): where exactly it stops depends on the environment, so report every
+    // return address found in the lowest 128 KB of the live stack; the caller names the recursion cycle from it.
+    static uint64_t words[16384];
+    uint64_t a = (rsp < stack.lo ? stack.lo : rsp) & ~7UL;
+    size_t len = sizeof words;
+    if (a + len > stack.hi) len = stack.hi - a;
+    if (!peek(pid, a, words, len))
+      for (size_t i = 0; i < len / 8 && nf < MAXFRAMES && n < cap - 64; i++)
+        if (is_retaddr(pid, &text, words[i])) { n += snprintf(buf + n, cap - n, "f %lx\n", words[i] - base); nf++; }
+    return n;
+  }
   if (rip >= text.lo && rip < text.hi) {
     n += snprintf(buf + n, cap - n, "f %lx\n", rip - base); nf++;
     fp = rbp;
@@ -126,7 +138,7 @@ static int make_trace(pid_t pid, int sig, char *buf, int cap) {
         }
     }
   }
-  while (fp && nf < MAXFRAMES && n < cap - 64) {
+  while (fp && nf < 48 && n < cap - 64) {
     uint64_t w[2];
     if (fp < stack.lo || fp + 16 > stack.hi || (fp & 7) || peek(pid, fp, w, 16)) break;
     if (w[1] < text.lo || w[1] >= text.hi) break;
